@@ -259,27 +259,22 @@ def parse_arguments(ctx):
 
 
 def assemble_table(ctx):
-    """Operand variant -> encoding class: 'enum' (v as u32), 'mask' (v.bits()), 'word' (push v), 'word2' ([lo, hi]), 'string'"""
+    """Operand variant -> encoding class: 'enum' (v as u32), 'mask' (v.bits()), 'word' (push v), 'word2' ([lo, hi]), 'string';
+    by symbolic evaluation of Assemble for Operand on each variant (robust to how the match is written)"""
     def build():
-        f = ctx.rspirv.fn(ASM, "assemble_into", "Operand", "Assemble")
-        res = f["sig"]["params"][1][0]
-        e = _single_expr(f)
-        if e is None or e[0] != "match":
-            raise Anchor("Assemble for Operand is not a single match")
+        from . import asmx
+        from ..symeval import Panic as SPanic
+        e = ctx.rspirv.item("rspirv::dr::constructs", "enum", "Operand")
         out = {}
-        for pat, guard, body in e[2]:
-            if guard is not None:
-                raise Anchor("guarded arm in Assemble for Operand")
-            pats = pat[1] if pat[0] == "p_or" else [pat]
-            for p in pats:
-                if p[0] == "p_wild":
-                    out["_"] = ("wildcard", show(body)[:80])
-                    continue
-                if p[0] != "p_ts" or len(p[2]) != 1 or p[2][0][0] != "p_ident":
-                    raise Anchor("Assemble for Operand: pattern %s" % show(p))
-                variant = p[1].split("::")[-1]
-                v = p[2][0][1]
-                out[variant] = _asm_class(body, res, v)
+        for v in e["variants"]:
+            try:
+                out[v["name"]] = asmx.operand_class(ctx, v["name"])
+            except Anchor as ex:
+                out[v["name"]] = ("bad", "not analysable: %s" % ex)
+            except SPanic as ex:
+                out[v["name"]] = ("bad", "panics: %s" % ex)
+            if out[v["name"]][0] == "other":
+                out[v["name"]] = ("bad", "emits %s" % (out[v["name"]][1],))
         return out
     return ctx.memo("assemble_table", build)
 
